@@ -283,7 +283,9 @@ def fa_case(draw, jfa=None, max_sessions=5, maxC=3, maxF=3, d_alive=None):
                 for _ in range(H)]
     sessions = share_counts(draw, sessions, ubm["variances"], r)
     return {"ubm": ubm, "jfa": bool(jfa), "U": U, "V": V, "D": D, "sessions": sessions,
-            "u_scale": u_scale, "v_scale": v_scale, "d_exp": int(d_exp)}
+            "u_scale": u_scale, "v_scale": v_scale, "d_exp": int(d_exp),
+            "stats_layout": choice(draw, ["C", "C", "C", "F", "strided"]),
+            "swap_ubm": choice(draw, [False, False, False, "plain", "after_use"])}
 
 
 def revive_dead_components(sessions, means, variances):
